@@ -338,11 +338,26 @@ func buildOperation(key string, r *expr.RouteExpr, bodies *EndpointBodies, rand 
 
 	// An endpoint can have multiple routes, so we need to be able to build a unique
 	// operationId for each route.
+	// A route has one full path per base path of the service: the index is the
+	// position of the path among all the paths of the endpoint.
 	var routeIndex int
-	for i, rt := range e.Routes {
-		if rt == r {
-			routeIndex = i
-			break
+	{
+		n, first, found := 0, -1, false
+		for _, rt := range e.Routes {
+			for _, p := range rt.FullPaths() {
+				if rt == r {
+					if first < 0 {
+						first = n
+					}
+					if !found && expr.HTTPWildcardRegex.ReplaceAllString(p, "/{$1}") == key {
+						routeIndex, found = n, true
+					}
+				}
+				n++
+			}
+		}
+		if !found && first >= 0 {
+			routeIndex = first
 		}
 	}
 
